@@ -2019,7 +2019,10 @@ class PseudoNetCDFFile(PseudoNetCDFSelfReg, object):
         """
         from collections.abc import Iterable
         outf = self._copywith(props=True, dimensions=False)
-        if isinstance(other, Iterable):
+        if hasattr(other, 'variables') and hasattr(other, 'dimensions'):
+            # one file; a file read from netCDF defines __iter__ (to refuse)
+            fs = [self, other]
+        elif isinstance(other, Iterable):
             fs = [self] + list(other)
         else:
             fs = [self, other]
